@@ -71,6 +71,11 @@ impl Prng {
         self.fill(&mut v);
         v
     }
+    /// Random bytes of a random length in 0..max.
+    pub fn bytes_below(&mut self, max: u64) -> Vec<u8> {
+        let n = self.below(max) as usize;
+        self.bytes(n)
+    }
     pub fn arr<const N: usize>(&mut self) -> [u8; N] {
         let mut v = [0u8; N];
         self.fill(&mut v);
